@@ -891,6 +891,14 @@ def fam_xof(rng):
         for k in (1, 8, 16, 31, 32, 33, 48, 64):
             add(5, [{"op": "set", "v": p}, {"op": "fill", "n": k}, {"op": "fill", "n": k}, {"op": "set", "v": p},
                     {"op": "read", "n": k}, {"op": "fill", "n": 64 - (k % 64)}, {"op": "fill", "n": k}])
+    for o in (1, 32, 40, 63, 100):
+        add(9, [{"op": "set", "v": o}, {"op": "fill", "n": 128 - (o % 64)}, {"op": "fill", "n": 10}, {"op": "set", "v": 64 * 5 + o},
+                {"op": "fill", "n": 64 - (o % 64)}, {"op": "fill", "n": 7}, {"op": "set", "v": o}, {"op": "fill", "n": 192 - (o % 64)},
+                {"op": "fill", "n": 3}])
+    for k in (1, 63, 64, 100):
+        add(9, [{"op": "set", "v": U64 - k}, {"op": "fill", "n": k}])
+        add(9, [{"op": "set", "v": U64 - k}, {"op": "xofread", "n": k}])
+        add(9, [{"op": "set", "v": U64 - k - 5}, {"op": "read", "n": k}, {"op": "xofread", "n": 5}])
     # seeks
     add(10, [{"op": "fill", "n": 100}, {"op": "seek", "kind": "current", "v": -36}, {"op": "fill", "n": 10},
              {"op": "seek", "kind": "current", "v": -74}, {"op": "fill", "n": 70},
@@ -1056,6 +1064,10 @@ def fam_hex(rng):
         out.append({"kind": "hex", "op": "from_hex", "s": s})
     for s in ("", "0", good[:63], good + "0", good + good, " " + good[:63], good[:63] + " ", "0x" + good[:62]):
         out.append({"kind": "hex", "op": "from_hex", "s": s})
+    # 64 CHARACTERS (more bytes) with a character whose code point is a hex digit modulo 256 (`c as u8` truncation)
+    for ch in ("\u0131", "\u0141", "\uff41", "\u0430", "\u0130", "\U00010030"):
+        for pos in (0, 31, 63):
+            out.append({"kind": "hex", "op": "from_hex", "s": good[:pos] + ch + good[pos + 1:]})
     # a valid 64-digit string with something around it (lenient parsers: trimming, radix prefixes, signs, separators)
     for pre, post in (("", "\n"), ("", "\r\n"), (" ", ""), ("", " "), ("\t", "\t"), ("\u00a0", ""), ("", "\u2028"), ("", "\u3000"),
                       ("0x", ""), ("0X", ""), ("#", ""), ("+", ""), ("-", ""), ("x", ""), ("", "h"), ("\"", "\""), ("", "\0"),
